@@ -382,13 +382,21 @@ def ascii_cut(ctx, lexpr):
                 r.anchor_missing(fname)
                 continue
             handled = None
-            for bi, b in enumerate(g.blocks):
-                t = b["term"]
-                if t["k"] == "switch" and t["ty"] == "u8" and not b.get("cleanup"):
-                    ot = g.blocks[t["otherwise"]]["term"]
-                    # the otherwise arm leads to the unreachable!() panic
-                    if _leads_to_panic(g, t["otherwise"]):
-                        handled = {v for v, _ in t["targets"]}
+            # the scanner itself, or the worker it delegates to (a shared / generic scanning loop)
+            cands = [g]
+            for _bi, t0 in g.calls():
+                c0 = t0["callee"]
+                h = lexpr.fn(c0.get("resolved") or c0.get("path") or "")
+                if h is not None and h.kind != "closure" and common.in_file(h, *PARSE_FILES) and h.path != g.path \
+                        and (h.self_ty or "").startswith("parse::read::SliceRead"):
+                    cands.append(h)
+            for gg in cands:
+                for bi, b in enumerate(gg.blocks):
+                    t = b["term"]
+                    if t["k"] == "switch" and t["ty"] == "u8" and not b.get("cleanup"):
+                        # the otherwise arm leads to the unreachable!() panic
+                        if _leads_to_panic(gg, t["otherwise"]):
+                            handled = {v for v, _ in t["targets"]}
             if handled is None:
                 r.anchor_missing("%s: match on the stop byte with an unreachable!() default" % fname)
             elif stop <= handled:
